@@ -41,6 +41,9 @@ var weirdHostPool = []string{
 	"256.1.1.1", "01.2.3.4", "1.2.3.4.", "[::1", "::1", "[::1]]", "[::ffff:1.2.3.4]", "[fe80::1%25eth0]", "[fe80::1%eth0]",
 	"[0:0:0:0:0:0:0:1]", "[2001:DB8::1]", "[127.0.0.1]", "[1.2.3.4]", "[example.com]", "[]", "[", "*", "*.", "a*.com", "*a.com",
 	"*.*.com", "a.*.com", "xn--.example", "xn--zz-zz-zz.example", "127.0.0.1.", "1", "0x7f.1", "user@example.com",
+	// Punycode labels that only a laxer IDNA profile (no STD3 rules, no label validation, no Bidi rule, no length check) lets through
+	"xn--a_b-kva.example", "xn--bcher_-kva.example", "xn--a.b_c.example", "xn--0ca.xn--_a-kva.example", "xn---bcher-kva.example", "xn--bcher--kva.example",
+	"xn--mgbh0fb.0.example", "xn--" + "a23456789012345678901234567890123456789012345678901234567890" + ".example",
 }
 
 func (g *gen) label(n int) string {
@@ -250,6 +253,22 @@ func (g *gen) splice(s string) string {
 	points := []int{i, hostStart, len(s)}
 	if portColon >= 0 {
 		points = append(points, hostStart+portColon, hostStart+portColon+1)
+	}
+	// structural deletions: the scheme separator, the port colon (also right after a bracket), a bracket
+	switch g.n(8) {
+	case 0:
+		return s[:i] + s[hostStart:]
+	case 1:
+		if j := strings.LastIndex(s, "]:"); j >= 0 {
+			return s[:j+1] + s[j+2:]
+		}
+		if portColon >= 0 {
+			return s[:hostStart+portColon] + s[hostStart+portColon+1:]
+		}
+	case 2:
+		if j := strings.IndexByte(s, ']'); j >= 0 {
+			return s[:j] + s[j+1:]
+		}
 	}
 	if i > 0 {
 		points = append(points, i-1, 1)
